@@ -33,16 +33,14 @@ ReqOfRec(e) == IF e.q.entry = "p2" THEN [entry |-> "p2", a |-> e.q.a]
 Judge(e) ==
   LET w == WorldOfRec(e)
       q == ReqOfRec(e)
-      must == MustRefuse(w, q)
+      fs == FailSets(w, q)
+      must == MustRefuseF(fs)
       impl == ImplStep(w, q) IN
-  [v |-> Verdict(w, q, e.obs), must |-> must,
-   sole |-> IF must THEN SoleRules(w, q) ELSE {},
-   fail |-> IF must THEN MinFail(w, q) ELSE {},
+  [v |-> VerdictF(must, e.obs), must |-> must,
+   sole |-> SoleRulesF(fs),
+   fail |-> IF must THEN MinFailF(fs) ELSE {},
    impl |-> impl,
    conf |-> impl.ok = e.obs.ok /\ impl.tag = e.obs.tag]
-
-\* (TLCEval: the function is computed once, not re-evaluated at every application)
-J == TLCEval([i \in DOMAIN Log |-> Judge(Log[i])])
 
 VARIABLE i
 Init == i \in DOMAIN Log
@@ -50,35 +48,43 @@ Next == UNCHANGED i
 Spec == Init /\ [][Next]_i
 
 \* the property monitor, on observations of the real implementation only
-C07 == ~IsViolation(J[i].v)
+\* (one TLC state per executed case; the workers evaluate the monitor in parallel)
+C07 == LET e == Log[i] IN ~IsViolation(Verdict(WorldOfRec(e), ReqOfRec(e), e.obs))
 
 ---------------------------------------------------------------------------
-Idx == DOMAIN Log
-Count(P(_)) == Cardinality({k \in Idx : P(k)})
-Viol == {k \in Idx : IsViolation(J[k].v)}
-Div  == {k \in Idx : ~J[k].conf}
-First(S, n) == LET q == SetToSeq(S) IN [k \in 1..(IF Len(q) < n THEN Len(q) ELSE n) |-> q[k]]
+\* the report: ONE pass over the log, every case judged once (TLC does not memoise J[k])
+One(b) == IF b THEN 1 ELSE 0
+Acc0 == [line |-> 0, accepted |-> 0, signed_ok |-> 0, refused |-> 0, must_refuse |-> 0, impl_stricter |-> 0,
+         panics |-> 0, changed_on_refusal |-> 0, sole |-> [r \in RuleNames |-> 0],
+         nviolations |-> 0, violations |-> <<>>, ndivergent |-> 0, divergences |-> <<>>]
+StepAcc(acc, e) ==
+  LET j == Judge(e)
+      n == acc.line + 1
+      bad == IsViolation(j.v) IN
+  [line |-> n,
+   accepted |-> acc.accepted + One(e.obs.ok),
+   signed_ok |-> acc.signed_ok + One(j.v = "signed_ok"),
+   refused |-> acc.refused + One(~e.obs.ok),
+   must_refuse |-> acc.must_refuse + One(j.must),
+   impl_stricter |-> acc.impl_stricter + One(~e.obs.ok /\ ~j.must),
+   panics |-> acc.panics + One(e.obs.tag = "panic"),
+   changed_on_refusal |-> acc.changed_on_refusal + One(~e.obs.ok /\ e.obs.changed),
+   sole |-> [r \in RuleNames |-> acc.sole[r] + One(~e.obs.ok /\ r \in j.sole)],
+   nviolations |-> acc.nviolations + One(bad),
+   violations |-> IF bad /\ Len(acc.violations) < 500
+                  THEN Append(acc.violations, [line |-> n, i |-> e.i, v |-> j.v, fail |-> SetToSeq(j.fail),
+                                               note |-> FeeNote(WorldOfRec(e), ReqOfRec(e)),
+                                               tag |-> e.obs.tag, sig |-> e.obs.sig])
+                  ELSE acc.violations,
+   ndivergent |-> acc.ndivergent + One(~j.conf),
+   divergences |-> IF ~j.conf /\ Len(acc.divergences) < 40
+                   THEN Append(acc.divergences, [line |-> n, i |-> e.i,
+                                                 real |-> [ok |-> e.obs.ok, tag |-> e.obs.tag],
+                                                 expected |-> j.impl, err |-> e.obs.err])
+                   ELSE acc.divergences]
 
-Report ==
-  [ cases        |-> Len(Log),
-    accepted     |-> Count(LAMBDA k : Log[k].obs.ok),
-    signed_ok    |-> Count(LAMBDA k : J[k].v = "signed_ok"),
-    refused      |-> Count(LAMBDA k : ~Log[k].obs.ok),
-    must_refuse  |-> Count(LAMBDA k : J[k].must),
-    impl_stricter |-> Count(LAMBDA k : ~Log[k].obs.ok /\ ~J[k].must),
-    panics       |-> Count(LAMBDA k : Log[k].obs.tag = "panic"),
-    changed_on_refusal |-> Count(LAMBDA k : ~Log[k].obs.ok /\ Log[k].obs.changed),
-    sole         |-> [r \in RuleNames |-> Count(LAMBDA k : ~Log[k].obs.ok /\ r \in J[k].sole)],
-    violations   |-> [k \in DOMAIN First(Viol, 200) |->
-                        LET n == First(Viol, 200)[k] IN
-                        [line |-> n, i |-> Log[n].i, v |-> J[n].v, fail |-> SetToSeq(J[n].fail),
-                         tag |-> Log[n].obs.tag, sig |-> Log[n].obs.sig]],
-    nviolations  |-> Cardinality(Viol),
-    ndivergent   |-> Cardinality(Div),
-    divergences  |-> [k \in DOMAIN First(Div, 40) |->
-                        LET n == First(Div, 40)[k] IN
-                        [line |-> n, i |-> Log[n].i, real |-> [ok |-> Log[n].obs.ok, tag |-> Log[n].obs.tag],
-                         expected |-> J[n].impl, err |-> Log[n].obs.err]] ]
+Report == LET r == FoldLeft(StepAcc, Acc0, Log) IN
+          [cases |-> r.line] @@ [f \in (DOMAIN r) \ {"line"} |-> r[f]]
 
 ASSUME JsonSerialize(IOEnv.MCL_REPORT, Report)
 =============================================================================
